@@ -171,7 +171,7 @@ func ParseURI(raw string) (*URI, error) { //nolint:gocognit,cyclop
 		return nil, ErrHost
 	}
 
-	if uri.Port, err = strconv.Atoi(rawPort); err != nil {
+	if uri.Port, err = strconv.Atoi(rawPort); err != nil || uri.Port < 0 || uri.Port > 65535 {
 		return nil, ErrPort
 	}
 
